@@ -13,7 +13,7 @@ PROP = {
     "harness": "c10",
     "driver": "c10",
     "n_quick": 250,
-    "n_thorough": 6000,
+    "n_thorough": 3000,
     "harness_timeout": 2400,
     "harness_args": harness_args,
     "trusted": [
@@ -28,3 +28,24 @@ PROP = {
         "goroutine leaks, blocking bounds and panics of the running library are runtime facts observed by the e2e harness (level: proof partial); 'Close returns within closeTimeout' is REFUTED when a blocking Open holds lifeMu (known finding C10-close-blocked-by-open); a dial that never returns is outside the environment assumption (the rig caps a hanging dial at 150 ms like an OS connect timeout)",
     ],
 }
+
+
+def custom(run, tier):
+    """thorough: the random histories once more under the race detector (a data race inside the
+    library or the rig makes the binary exit 66 and print WARNING: DATA RACE)."""
+    if tier != "thorough":
+        return
+    import os, sys
+    sys.path.insert(0, os.path.join(os.path.dirname(os.path.dirname(os.path.abspath(__file__))), "lib"))
+    import vlib
+    ok, log = vlib.build_harness("c10", race=True)
+    run.oblige("Go harness builds with -race", ok, log)
+    if not ok:
+        return
+    cases = os.path.join(vlib.BUILD, "c10.race.cases")
+    rc, summary, out = vlib.run_harness("c10", ["-pass", "hist", "-seed", run.seed + 1000, "-n", 600, "-tier", tier, "-out", cases],
+                                         timeout=2400, race=True)
+    run.oblige("random histories under -race: no data race reported, run completes", rc == 0 and summary is not None and "DATA RACE" not in out, out[-3000:])
+    run.absorb(summary)
+    ok, nc, nm, mism, raw = vlib.run_driver("c10", cases)
+    run.oblige("correspondence (race run): monitor accepts %d logs" % nc, ok and nm == 0, "\n".join(mism) or raw)
